@@ -440,10 +440,16 @@ pub fn run(cfg: &Cfg, rep: &mut Report, mode: &Mode2) {
             }
             // host-API calls of every function value the program yields
             if let Outcome::Value(v) = &m.outcome {
-                let mut fs = Vec::new();
-                collect_functions(v, &mut fs, 0);
-                for f in fs {
-                    host_calls(&mut ctx, &f, &text, &mut rng);
+                if m.state.tainted.is_some() {
+                    // values of an execution that already broke soundness may be captured in the functions it
+                    // yields: calling them would only re-report the same finding from another execution
+                    ctx.rep.count("host-calls-skipped:program-already-unsound");
+                } else {
+                    let mut fs = Vec::new();
+                    collect_functions(v, &mut fs, 0);
+                    for f in fs {
+                        host_calls(&mut ctx, &f, &text, &mut rng);
+                    }
                 }
             }
             // accepted mutants (C02's way to reach odd but legal shapes)
